@@ -69,8 +69,8 @@ func checkAccepted(c DCase) (fail string, classes []string) {
 	// into the session's existing object when a session is resumed): what Decode makes
 	// of the input does not depend on what the object held.
 	for pi, prev := range usedWith(c.Decoder) {
-		mu, _ := message.Type(c.Decoder).New()
-		if _, err := mu.Decode(exactCap(prev)); err != nil {
+		mu := usedObject(c.Decoder, pi)
+		if mu == nil {
 			continue
 		}
 		if _, err := mu.Decode(exactCap(c.Input)); err != nil {
@@ -89,6 +89,37 @@ func checkAccepted(c DCase) (fail string, classes []string) {
 	return "", classes
 }
 
+// usedObject returns a message object of the type that has been used before:
+// for even pi it has decoded base packet pi/2 of its type, for odd pi it was
+// built through the setters from that base packet and encoded once.
+func usedObject(typ byte, pi int) message.Message {
+	var bases []*codec.Packet
+	for _, p := range basePackets() {
+		if p.Type == typ {
+			bases = append(bases, p)
+		}
+	}
+	if pi/2 >= len(bases) {
+		return nil
+	}
+	if pi%2 == 0 {
+		m, _ := message.Type(typ).New()
+		if _, err := m.Decode(exactCap(codec.Encode(bases[pi/2]))); err != nil {
+			return nil
+		}
+		return m
+	}
+	m, _, err := build(bases[pi/2])
+	if err != nil || m == nil {
+		return nil
+	}
+	buf := make([]byte, m.Len()+4)
+	if _, err := m.Encode(buf); err != nil {
+		return nil
+	}
+	return m
+}
+
 var usedCache = map[byte][][]byte{}
 
 // usedWith returns encodings of the base packets of a type (what a message
@@ -100,7 +131,7 @@ func usedWith(typ byte) [][]byte {
 	var u [][]byte
 	for _, p := range basePackets() {
 		if p.Type == typ {
-			u = append(u, codec.Encode(p))
+			u = append(u, codec.Encode(p), codec.Encode(p)) // one entry per way of having used the object (see usedObject)
 		}
 	}
 	usedCache[typ] = u
